@@ -4,7 +4,7 @@ from harness import ll_common as ll
 PROPERTY = "C02"
 STATEFUL = True
 READY = True
-THEOREMS = ["C02.sets_closed", "C02.det_complete", "C02.fact_lang_eq", "C02.exact", "C02.reject_raises", "C02.smart_indep",
+THEOREMS = ["C02.sets_closed", "C02.fuel_enough", "C02.det_complete", "C02.fact_lang_eq", "C02.exact", "C02.reject_raises", "C02.smart_indep",
             "C02.ll1_as_written_unambiguous_partial"]
 RULE = ("one case = one generated grammar (generators as C01, more LL(1)-ish ones), constructed with "
         "smart_factorization True and False, each followed by every token string up to the tier's length plus "
@@ -58,7 +58,7 @@ def oracle(case, replies):
 def gen_cases(rng, tier):
     diags = ("nullables", "first", "follow", "table")
     if tier == "quick":
-        yield from ll.gen_ll_cases(rng, 1500, 4, sentences=30, ll1_share=0.45, diags=diags)
+        yield from ll.gen_ll_cases(rng, 3000, 4, sentences=30, ll1_share=0.45, diags=diags)
     else:
         yield from ll.gen_ll_cases(rng, 12000, 5, sentences=40, extra_long=10, ll1_share=0.45, diags=diags)
         yield from ll.tiny_grammars(rng, limit=20000)
@@ -87,7 +87,8 @@ observable = ll.observable
 
 LEVEL_TEXT = ("Kernel-checked on the executable model, for ALL grammars and token lists: when is_ambiguous() is False the parser "
               "accepts exactly the sentences of the user's grammar (C02.exact: soundness from C01, completeness C02.det_complete "
-              "with the closure conditions read off the nullable/FIRST/FOLLOW loops and the table, C02.sets_closed; factorisation "
+              "with the closure conditions read off the nullable/FIRST/FOLLOW loops and the table, C02.sets_closed (the loops never "
+              "run out of fuel, C02.fuel_enough); factorisation "
               "preserves the language, C02.fact_lang_eq), identically for both smart_factorization values (C02.smart_indep); every "
               "non-sentence ends in ParsingError (C02.reject_raises). The clause 'LL(1) as written is reported unambiguous' is "
               "partial (see ASSUMPTIONS). model = code by a differential run incl. nullables, FIRST, FOLLOW and table as diagnostics.")
